@@ -477,6 +477,9 @@ def replay_items(chk, prefix="C16"):
         def opaque_call(self, eng_, s, fn, args, kwargs):
             if fn.name == "DurableContext._create_step_id_for_logical_step":
                 return [("val", Sym("str", idf(zint(args[0]))), s)]
+            if fn.name == "ExecutionState.track_replay":
+                s.emit("track", id=kwargs.get("operation_id", args[0] if args else None))
+                return [("val", None, s)]
             if fn.name == "ExecutionState.get_checkpoint_result":
                 n = len([e for e in s.trace if e.kind == "read"])
                 op = eng_.sym_of_type("Operation", f"rec{n}", s, P.modules["lambda_service"])
@@ -536,6 +539,13 @@ def replay_items(chk, prefix="C16"):
                 case_started = z3.And(b["status"].t == I["STARTED"], z3.BoolVal(not mine), is_none(b["result"]), is_none(b["error"]))
                 goal = z3.And(goal, z3.If(succ_rec, case_succ, z3.If(fail_rec, case_fail, case_started)))
             ci = len(childs)
+            if prefix == "C17":
+                tracks = [e for e in s.trace if e.kind == "track"]
+                for i in range(2):
+                    fail_rec = status_in(eng, s, reads[i].rec, ["FAILED"])
+                    mine_t = [t for t in tracks if z3.is_true(simp(ops.values_equal(s, t.id, Sym("str", idf(idx[i].t)))))]
+                    chk.prove("C17.exec.replay_tracks_failed_branch", list(s.pc) + [fail_rec], z3.BoolVal(len(mine_t) == 1),
+                              desc="a FAILED branch is not run again on replay, so replay() itself tells the replay tracker that the branch has been passed (SUCCEEDED branches do it in their child handler path)")
             goal = z3.And(goal, z3.BoolVal(ci == len(childs)))
         chk.prove(f"{prefix}.exec.replay_items", s.pc, goal,
                   desc="replay reads each branch's record under the branch's logical id; SUCCEEDED => item from re-running the branch through its child handler; FAILED => the recorded error; otherwise STARTED; no other branch body is entered; classified with the executor's completion config",
